@@ -46,7 +46,7 @@ def _touches_dead(case, obs):
     dl = {}
     prev_order = []
     hit = False
-    for t, c, r, order in obs["steps"]:
+    for t, c, r, order, *_ in obs["steps"]:
         if c[0] in ("get", "exists", "get_expire", "set", "incr", "expire", "delete") and c[1] in prev_order:
             if c[0] == "get" and r == memrun.DEFAULT: hit = True
             if c[0] == "exists" and r is False: hit = True
